@@ -25,6 +25,9 @@ NCPU = os.cpu_count() or 4
 ALLOWED_AXIOMS = {
     # standard-library axioms that may appear (each is reported per theorem in the evidence)
     "functional_extensionality_dep", "FunctionalExtensionality.functional_extensionality_dep",
+    # Coq.Floats.FloatAxioms: the standard library's specification of the kernel's primitive binary64 operations
+    "FloatAxioms.abs_spec", "FloatAxioms.ltb_spec", "FloatAxioms.leb_spec", "FloatAxioms.eqb_spec", "FloatAxioms.opp_spec",
+    "FloatAxioms.Prim2SF_valid", "FloatAxioms.SF2Prim_Prim2SF", "FloatAxioms.Prim2SF_SF2Prim", "FloatAxioms.compare_spec",
 }
 # primitive (kernel-implemented) constants that Print Assumptions lists; not axioms of ours
 PRIMITIVE_PREFIXES = ("PrimFloat.", "Uint63.", "PrimInt63.", "FloatOps.", "Floats.", "Sint63.", "PArray.",
@@ -233,7 +236,7 @@ def print_assumptions(prop, theorems, scratch):
             line = line.rstrip()
             if not line or line.startswith("Closed under the global context") or line.startswith("Axioms:"):
                 continue
-            m = re.match(r"^([A-Za-z_][A-Za-z0-9_.']*)\s*:", line)
+            m = re.match(r"^([A-Za-z_][A-Za-z0-9_.']*)\s*(:|$)", line)      # `name : type`, or `name` alone with the type on the next lines
             if m:
                 res[cur].append(m.group(1))
     return res, out
